@@ -13,5 +13,5 @@ if n==0: print("MUTATION DID NOT APPLY"); sys.exit(3)
 s=re.sub(a,b,s,count=1)
 open(p,'w').write(s)
 PY
-cd /verif && VERIF_REPO=$S ./check $1 2>/dev/null | grep -E "VIOLATION|HOLDS|VIOLATED|UNDECIDED" | cut -c1-260
+cd /verif && VERIF_EVIDENCE_DIR=/tmp/scratch/evidence VERIF_REPLAY_DIR=/tmp/scratch/replay VERIF_REPO=$S ./check $1 2>/dev/null | grep -E "VIOLATION|HOLDS|VIOLATED|UNDECIDED" | cut -c1-260
 git -C $S checkout -q -- .
